@@ -250,6 +250,39 @@ TDS_VERTICES = 'core::triangulation_data_structure::Tds::vertices'
 FILTERING = {'filter', 'filter_map', 'take', 'skip', 'step_by', 'take_while', 'skip_while', 'nth', 'last', 'rev_take'}
 
 
+BIT_EXTRACTORS = ('to_bits', 'integer_decode', 'to_ne_bytes', 'to_le_bytes', 'to_be_bytes', 'transmute', 'transmute_copy')
+
+
+def _floatkey(ctx, cfg, prog):
+    """FLOATKEY (lint-type, negative): equality and hashing of the crate's key types go through the ordered-float
+    helpers; comparing or hashing the *bit pattern* of a scalar distinguishes -0.0 from +0.0, and the grid files a
+    vertex under floor(-0.0 / cell) = -0.0 while every probe key is base + offset = +0.0 - the vertex becomes
+    invisible to the duplicate query.  No PartialEq::eq / Hash::hash body of the crate calls a bit extractor."""
+    ctx.rule('FLOATKEY', 'no Eq / Hash implementation of the crate compares or hashes the bit pattern of a scalar')
+    n = 0
+    bad = []
+    for q, b in sorted(prog.bodies.items()):
+        if '::tests::' in q or not b.file.startswith('src/'):
+            continue
+        root = b.root or q
+        if not ((' as std::cmp::PartialEq' in root and root.endswith('::eq')) or root.endswith(' as std::hash::Hash>::hash')):
+            continue
+        if b.kind != 'closure':
+            n += 1
+        for bb, t in b.calls():
+            last = (t.callee or t.resolved or '').rsplit('::', 1)[-1]
+            if last in BIT_EXTRACTORS:
+                bad.append((root, last, b.file, t.line))
+    for (root, last, file, line) in bad:
+        ctx.ob('FLOATKEY', '%s|%s' % (root, last), cfg, False,
+               '%s() in an Eq / Hash implementation: the bit pattern tells -0.0 from +0.0 (and NaN payloads apart), so equal '
+               'coordinates can get different keys' % last, site='%s:%d' % (file, line))
+    ctx.ob('FLOATKEY', 'scan', cfg, True, 'Eq / Hash implementations scanned: %d; bit-pattern extractors found: %d' % (n, len(bad)))
+    ctx.floor('Eq / Hash implementations in the crate', 40, n, cfg)
+    grid = [q for q in prog.bodies if 'spatial_hash_grid::GridKey as std::' in q]
+    ctx.floor('GridKey Eq / Hash implementations', 2, len([q for q in grid if prog.bodies[q].kind != 'closure']), cfg)
+
+
 def _seedall(ctx, cfg, prog, mod):
     """Bulk (re)seeding sites: a body that calls both Tds::vertices and HashGridIndex::insert_vertex in one loop."""
     import loops
@@ -329,6 +362,7 @@ def run(ctx):
         prog = ctx.prog(cfg)
         mod = ctx.mod(cfg)
         _seedall(ctx, cfg, prog, mod)
+        _floatkey(ctx, cfg, prog)
         res = pair.Resources(prog, mod)
         E = dt_entries(prog, res)
         ctx.floor('exported &mut DelaunayTriangulation operations', 14, len(E), cfg)
